@@ -6,6 +6,7 @@ from fractions import Fraction
 import cfgmodel as M
 import fsamodel as F
 import translate_tocfg as TT
+import translate_cfgbytes as TB
 from cfgcheck import LangTable
 from fsacheck import WTable, run_w, coq_str
 from common import dec_val, close_enough
@@ -77,7 +78,13 @@ def run(ctx):
     except TT.Refuse as e:
         ctx.obligation("translate_tocfg", False, f"translator refused: {e}")
         tr_ok = False
-    ok, out = ctx.build(["proofs/ConvertProofs.vo", "proofs/GenToCfgBridge.vo", "proofs/BytesProofs.vo", "proofs/WfsaProofs.vo", "model/EpsSpec.vo", "proofs/CfgChart.vo"]) if tr_ok else (False, "translator refused")
+    try:
+        ctx.cov["translators"].append({k: v for k, v in TB.main().items() if k != "text"})   # CFG.to_bytes (bridged in proofs/GenCfgBytesBridge.v)
+        ctx.obligation("translate_cfgbytes", True)
+    except TB.Refuse as e:
+        ctx.obligation("translate_cfgbytes", False, f"translator refused: {e}")
+        tr_ok = False
+    ok, out = ctx.build(["proofs/ConvertProofs.vo", "proofs/GenToCfgBridge.vo", "proofs/BytesProofs.vo", "proofs/CfgBytesProofs.vo", "proofs/GenCfgBytesBridge.vo", "proofs/WfsaProofs.vo", "model/EpsSpec.vo", "proofs/CfgChart.vo"]) if tr_ok else (False, "translator refused")
     if ok:
         ctx.prove("props/C17.v")
     else:
